@@ -43,9 +43,9 @@ func (*prop) Assumptions() []string {
 }
 func (*prop) MinDistinct(tier string) int64 {
 	if tier == "thorough" {
-		return 100_000
+		return 100000
 	}
-	return 5_000
+	return 5000
 }
 func (*prop) WantsRace(tier string) bool { return true }
 
